@@ -196,6 +196,19 @@ def rule_r2(prog, res) -> None:
     n = 0
     for m in _methods(prog, ci):
         cfg, effs = _fs_nodes(prog, m, deep=False)
+        appended = [nd for nd, e, leaf, _ in effs if leaf == tcont and e.op == "open" and e.mode and e.mode[0] == "a"]
+        if appended:
+            n += 1
+            res.touch(m)
+            res.violation(
+                "C08.R2",
+                m,
+                appended[0].ast,
+                f"'{tcont}' is opened in append mode: a rebuild adds a second pickle behind the old one while the marker '{tmark}' is rewritten for the new binning; the reader loads the FIRST object, "
+                "so every later measurement silently uses the trees of the very first build",
+                key_extra="content-appended",
+            )
+            continue
         trunc = [nd for nd, e, leaf, _ in effs if leaf == tcont and _is_truncating(e) and e.op == "open"]
         if not trunc:
             continue
